@@ -130,7 +130,17 @@ fn build_fixture(
   inject: bool,
   npm_mode: usize,
 ) -> (ModuleGraph, Vec<Injected>, Vec<String>, Result<(), DriveError>) {
-  let sched = Sched::new(SchedMode::Immediate);
+  build_fixture_sched(fx, ch, inject, npm_mode, SchedMode::Immediate)
+}
+
+fn build_fixture_sched(
+  fx: &Fixture,
+  ch: &Ch,
+  inject: bool,
+  npm_mode: usize,
+  mode: SchedMode,
+) -> (ModuleGraph, Vec<Injected>, Vec<String>, Result<(), DriveError>) {
+  let sched = Sched::new(mode);
   let loader = ScriptedLoader::new(sched);
   (fx.install)(&loader);
   if fx.cached_only_empty {
@@ -243,6 +253,8 @@ fn build_fixture(
       unstable_text: true,
       unstable_bytes: true,
       npm: if fx.with_npm { Some(&npm) } else { None },
+      // completion order is a free (shape) choice here: faults are what is bounded
+      sched_cost: false,
       ..Default::default()
     },
     ch,
@@ -258,6 +270,10 @@ fn build_fixture(
 }
 
 fn body(fixtures: Vec<usize>) -> impl Fn(&Ch) -> Run + Sync + Send {
+  body_sched(fixtures, SchedMode::Immediate)
+}
+
+fn body_sched(fixtures: Vec<usize>, mode: SchedMode) -> impl Fn(&Ch) -> Run + Sync + Send {
   move |ch: &Ch| {
     let mut run = Run::default();
     let fi = fixtures[ch.shape("fixture", fixtures.len())];
@@ -265,7 +281,7 @@ fn body(fixtures: Vec<usize>) -> impl Fn(&Ch) -> Run + Sync + Send {
     let npm_mode = if fx.with_npm { ch.choose("npm_answer", 3) } else { 0 };
     // fault-free reference (same npm answer)
     let (g0, _, _, r0) = build_fixture(&fx, ch, false, npm_mode);
-    let (g, injected, log, r) = build_fixture(&fx, ch, true, npm_mode);
+    let (g, injected, log, r) = build_fixture_sched(&fx, ch, true, npm_mode, mode);
     run.evals = 1;
     let o0 = obs(&g0);
     let o = obs(&g);
@@ -455,7 +471,7 @@ fn body(fixtures: Vec<usize>) -> impl Fn(&Ch) -> Run + Sync + Send {
         }
       }
     }
-    run.state_key = hash_of(&(fi, npm_mode, format!("{injected:?}")));
+    run.state_key = hash_of(&(fi, npm_mode, format!("{injected:?}"), &log));
     run.nontrivial = !injected.is_empty();
     run.outcome_key = hash_json(&json!([o["slots"].as_object().map(|m| m.iter().map(|(k, v)| (k.clone(), v.get("error_kind").cloned().unwrap_or(v["kind"].clone()))).collect::<serde_json::Map<_, _>>()), o["redirects"]]));
     run.count("faults_injected", injected.len() as u64);
@@ -491,6 +507,12 @@ pub fn prop(tier: Tier) -> Prop {
         modes: vec![Mode::Deviations(2)],
         what: "any two faults in the plain fixture",
       },
+      Part {
+        name: "faults-x-schedules",
+        body: Box::new(body_sched(vec![0, 3], SchedMode::Gated)),
+        modes: vec![Mode::Deviations(0), Mode::Deviations(1)],
+        what: "plain and npm fixtures: one fault anywhere combined with EVERY completion order of the gated loader futures",
+      },
     ],
     Tier::Thorough => vec![
       Part {
@@ -498,6 +520,12 @@ pub fn prop(tier: Tier) -> Prop {
         body: Box::new(body(vec![0, 1, 2, 3])),
         modes: vec![Mode::Deviations(1), Mode::Deviations(2), Mode::Deviations(3)],
         what: "up to three faults at any loader calls / npm answers of the four fixtures",
+      },
+      Part {
+        name: "faults-x-schedules",
+        body: Box::new(body_sched(vec![0, 3], SchedMode::Gated)),
+        modes: vec![Mode::Deviations(1), Mode::Deviations(2)],
+        what: "plain and npm fixtures: up to two faults anywhere combined with EVERY completion order of the gated loader futures (a fault at a particular point under a particular interleaving)",
       },
     ],
   };
